@@ -32,13 +32,30 @@ def d5(repo: Repo) -> RuleResult:
     res = RuleResult("D5", floor=14)
     m = get_model(repo)
 
-    def simple(cname: str, want: List[str], what: str) -> None:
+    from .emit import block_flow, emitted
+    from .flows import compiler_flow
+    from .fold import by_name, feasible
+    from .normal import C as K, V as VV
+    from .pyflow import single_atom
+
+    def size_paths(cname: str, meth: str = "nbits"):
         c = m.cls(cname, "_ast.py")
-        f = c.methods.get("nbits")
-        got = [src_of(r.value) for r in _rets(f.node)] if f else None
+        f = m.lookup(c, meth)
+        if f is None:
+            raise Inconclusive(f"{cname}.{meth} vanished")
+        fl = compiler_flow(repo, cname, "_ast.py", inline=lambda n_, f_: n_ == "ahead_nbits", pure=("nbits", "fields", "sorted_fields", "nbytes"))
+        return f, [p_ for p_ in fl.run(f.node) if p_.done == "return" and p_.ret is not None]
+
+    def simple(cname: str, want: List[str], what: str) -> None:
+        try:
+            f, ps = size_paths(cname)
+        except Inconclusive as e:
+            res.unsure(f"D5: {e}")
+            return
+        got = sorted({show(p_.ret) for p_ in ps})
         res.inst(part="ast", function=f"{cname}.nbits", returns=got)
-        if got is None or len(got) != 1 or got[0] not in want:
-            fd = Finding("D5", AST_REL, f.node.lineno if f else 0, f"{cname}.nbits", str(got), f"{cname} must occupy {what}", witness=f"a message with a {cname.lower()} field has a wrong size / layout", tag=f"{cname}.nbits")
+        if len(got) != 1 or got[0] not in want:
+            fd = Finding("D5", AST_REL, f.node.lineno, f"{cname}.nbits", str(got), f"{cname} must occupy {what}", witness=f"a message with a {cname.lower()} field has a wrong size / layout", tag=f"{cname}.nbits")
             fd.part = "ast"
             res.bad(fd)
 
@@ -49,102 +66,110 @@ def d5(repo: Repo) -> RuleResult:
     simple("Enum", ["self.type.nbits()"], "the width of its uint type")
     simple("Alias", ["self.type.nbits()"], "the width of its target")
 
-    lw = PyLower({}, names={"self.cap": "cap"})
-    # Array
-    arr = m.cls("Array", "_ast.py").methods.get("nbits")
-    if arr is None:
-        res.unsure("D5: Array.nbits vanished")
-    else:
-        eff, _ = lw.summarize(arr.node)
-        rets = [(tuple(e.guard), e.args[0]) for e in eff if e.kind == "return"]
-        res.inst(part="ast", function="Array.nbits", returns=[(g, show(v)) for g, v in rets])
-        body = V("cap") * call("nbits")
-        plain = [v for g, v in rets if g == ("not self.extensible",)]
-        ext = [v for g, v in rets if g != ("not self.extensible",)]
-        ok = len(rets) == 2 and plain == [body] and ext == [call("ahead_nbits") + body]
-        if not ok:
-            alt = [v for g, v in rets if g == ("self.extensible",)]
-            ok = len(rets) == 2 and alt == [call("ahead_nbits") + body] and [v for g, v in rets if g != ("self.extensible",)] == [body]
-        if not ok:
-            fd = Finding("D5", AST_REL, arr.node.lineno, "Array.nbits", str([(g, show(v)) for g, v in rets]), "an array must occupy cap * element bits, plus the 16-bit prefix exactly when extensible", witness="byte[3]' x = 1; uint8 y = 2 : buffer length and prefix disagree with the runtimes", tag="Array.nbits")
+    def ext_truth(p_: Any) -> Optional[bool]:
+        for k_, t_ in p_.guards:
+            if k_[0] == "truthy" and show(k_[1]) == "self.extensible":
+                return t_
+        return None
+
+    def sized(cname: str, body_ok, what: str, witness: str) -> None:
+        try:
+            f, ps = size_paths(cname)
+        except Inconclusive as e:
+            res.unsure(f"D5: {e}")
+            return
+        rets = [(ext_truth(p_), p_.ret) for p_ in ps]
+        res.inst(part="ast", function=f"{cname}.nbits", returns=[(e_, show(v)) for e_, v in rets])
+        ok = bool(rets)
+        seen = set()
+        for e_, v in rets:
+            for case in ((True, False) if e_ is None else (e_,)):
+                seen.add(case)
+                body = v - K(16) if case else v
+                if not body_ok(body):
+                    ok = False
+        if not ok or seen != {True, False}:
+            fd = Finding("D5", AST_REL, f.node.lineno, f"{cname}.nbits", str([(e_, show(v)) for e_, v in rets]), what, witness=witness, tag=f"{cname}.nbits")
             fd.part = "ast"
             res.bad(fd)
-    # Message
-    msg = m.cls("Message", "_ast.py").methods.get("nbits")
-    if msg is None:
-        res.unsure("D5: Message.nbits vanished")
-    else:
-        sums = [n for n in ast.walk(msg.node) if isinstance(n, ast.Call) and isinstance(n.func, ast.Name) and n.func.id == "sum"]
-        oksum = False
-        if len(sums) == 1 and sums[0].args and isinstance(sums[0].args[0], ast.GeneratorExp):
-            ge = sums[0].args[0]
-            v = ge.generators[0].target
-            oksum = isinstance(v, ast.Name) and src_of(ge.elt) == f"{v.id}.type.nbits()" and src_of(ge.generators[0].iter) in ("self.fields()", "self.sorted_fields()") and not ge.generators[0].ifs
-        rets = _rets(msg.node)
-        shapes = sorted((tuple(sorted(_conds(r, msg.node))), src_of(r.value)) for r in rets)
-        res.inst(part="ast", function="Message.nbits", returns=shapes, sum_ok=oksum)
-        want1 = sorted([(("not self.extensible",), "n"), ((), "self.ahead_nbits() + n")])
-        want2 = sorted([(("self.extensible",), "self.ahead_nbits() + n"), ((), "n")])
-        want3 = sorted([(("not self.extensible",), "n"), ((), "n + self.ahead_nbits()")])
-        want4 = sorted([(("not self.extensible",), "n"), (("self.extensible",), "self.ahead_nbits() + n")])
-        want5 = sorted([(("not self.extensible",), "n"), (("self.extensible",), "n + self.ahead_nbits()")])
-        if not oksum or shapes not in (want1, want2, want3, want4, want5):
-            fd = Finding("D5", AST_REL, msg.node.lineno, "Message.nbits", str(shapes), "a message must occupy the sum of its fields' bits, plus the 16-bit prefix exactly when extensible", witness="message M' { uint3 a = 1 }", tag="Message.nbits")
+
+    def array_body(v: Any) -> bool:
+        return show(v) in ("self.element_type.nbits()*self.cap", "self.cap*self.element_type.nbits()")
+
+    def message_body(v: Any) -> bool:
+        a = single_atom(v)
+        return a is not None and a[0] == "sumloop" and show(a[1]) == "$0.type.nbits()" and show(a[2]) in ("self.fields()", "self.sorted_fields()")
+
+    sized("Array", array_body, "an array must occupy cap * element bits, plus the 16-bit prefix exactly when extensible", "byte[3]' x = 1; uint8 y = 2 : buffer length and prefix disagree with the runtimes")
+    sized("Message", message_body, "a message must occupy the sum of its fields' bits, plus the 16-bit prefix exactly when extensible", "message M' { uint3 a = 1 }")
+
+    # nbytes = ceil(nbits / 8), folded over bit sizes
+    try:
+        f, ps = size_paths("Type", "nbytes")
+        wrong = None
+        for n_ in list(range(0, 130)) + [65535, 65536]:
+            okp, unfolded = feasible(ps, by_name({}, {"nbits": n_}))
+            vals = set()
+            for p_ in okp:
+                from .fold import replace_atoms
+
+                vals.add(replace_atoms(p_.ret, by_name({}, {"nbits": n_})).const_value())
+            if unfolded or len(vals) != 1 or None in vals:
+                wrong = ("unknown", n_, sorted(map(str, vals)))
+                break
+            v_ = vals.pop()
+            if v_ != (n_ + 7) // 8:
+                wrong = ("value", n_, v_)
+                break
+        res.inst(part="ast", function="Type.nbytes", folded=132, wrong=wrong)
+        if wrong is not None and wrong[0] == "value":
+            fd = Finding("D5", AST_REL, f.node.lineno, "Type.nbytes", f"nbits={wrong[1]} -> {wrong[2]}", f"nbytes() is not ceil(nbits / 8): {wrong[1]} bits give {wrong[2]} bytes", witness="a 16-bit message gets 3 bytes / a 17-bit message gets 2 bytes", tag="Type.nbytes")
             fd.part = "ast"
             res.bad(fd)
-    # nbytes ceil form
-    nb = m.cls("Type", "_ast.py").methods.get("nbytes")
-    if nb is None:
-        res.unsure("D5: Type.nbytes vanished")
-    else:
-        lw2 = PyLower({}, names={})
-        eff, env = lw2.summarize(nb.node)
-        n = env.get("nbits", call("nbits"))
-        rets = [(tuple(e.guard), e.args[0]) for e in eff if e.kind == "return"]
-        res.inst(part="ast", function="Type.nbytes", returns=[(g, show(v)) for g, v in rets])
-        ok = False
-        if len(rets) == 1 and rets[0][1] == div8(n + C(7)):
-            ok = True
-        if len(rets) == 2:
-            g0, v0 = rets[0]
-            g1, v1 = rets[1]
-            if g0 in (("nbits % 8 == 0",), ("not nbits % 8",), ("nbits & 7 == 0",)) and v0 == div8(n) and v1 == div8(n) + C(1):
-                ok = True
-            if g0 in (("nbits % 8 != 0",), ("nbits % 8",), ("nbits % 8 > 0",)) and v0 == div8(n) + C(1) and v1 == div8(n):
-                ok = True
-        if not ok:
-            clearly = len(rets) == 1 and rets[0][1] in (div8(n), div8(n) + C(1), div8(n + C(8)))
-            if clearly or len(rets) == 2:
-                fd = Finding("D5", AST_REL, nb.node.lineno, "Type.nbytes", str([(g, show(v)) for g, v in rets]), "nbytes() is not ceil(nbits / 8)", witness="a 16-bit message gets 3 bytes / a 17-bit message gets 2 bytes", tag="Type.nbytes")
-                fd.part = "ast"
-                res.bad(fd)
-            else:
-                res.unsure("D5: Type.nbytes is not one of the enumerated ceil-division idioms")
-        if "self.nbits()" not in src_of(nb.node):
-            res.unsure("D5: Type.nbytes does not start from self.nbits()")
+        elif wrong is not None:
+            res.unsure(f"D5: Type.nbytes does not fold to one constant for nbits = {wrong[1]} ({wrong[2]})")
+    except Inconclusive as e:
+        res.unsure(f"D5: {e}")
 
     # size holes
-    def ret_is(relsfx: str, qual: str, want: str, part: str) -> None:
+    def ret_is(relsfx: str, cn: str, meth: str, want: str, part: str) -> None:
+        qual = f"{cn}.{meth}"
         f = m.func(relsfx, qual)
-        got = [src_of(r.value) for r in _rets(f.node)]
+        try:
+            got = _ret_shapes(repo, cn, relsfx, meth)
+        except Inconclusive as e:
+            res.unsure(f"D5: {qual}: {e}")
+            return
         res.inst(part=part, function=qual, returns=got)
         if got != [want]:
-            fd = Finding("D5", f.rel, f.node.lineno, qual, str(got), f"must be `{want}`", witness="the byte-length constant differs from ceil(N/8) or between languages", tag=f"{qual}:source")
+            fd = Finding("D5", f.rel, f.node.lineno, qual, str(got), f"must be `{want[1:-1]}`", witness="the byte-length constant differs from ceil(N/8) or between languages", tag=f"{qual}:source")
             fd.part = part
             res.bad(fd)
 
-    ret_is("renderer/block.py", "BlockBindMessage.message_nbytes", "self.formatter.format_int_value(self.d.nbytes())", "common")
+    ret_is("renderer/block.py", "BlockBindMessage", "message_nbytes", "{self.formatter.format_int_value(self.d.nbytes())}", "common")
+
+    FMT = {"c": ("CFormatter", "impls/c/formatter.py"), "go": ("GoFormatter", "impls/go/formatter.py"), "py": ("PyFormatter", "impls/py/formatter.py")}
 
     def template_has(relsfx: str, cname: str, piece: str, part: str, what: str) -> None:
-        mod = m.mod(relsfx)
-        c = mod.classes.get(cname)
-        if c is None:
-            res.unsure(f"D5: {relsfx}:{cname} vanished")
+        sq = lambda x: "".join(x.split())
+        try:
+            c = m.cls(cname, relsfx)
+            fcn, frel = FMT[part]
+            lines: List[str] = []
+            for meth in ("render", "before", "after"):
+                fn_ = m.lookup(c, meth)
+                if fn_ is None or fn_.cls is None or "/impls/" not in fn_.cls.rel:
+                    continue
+                flow = block_flow(repo, cname, relsfx, fcn, frel, {}, keep=("format_comment", "format_docstring", "format_message_name", "format_int_value", "format_type"))
+                ems, _, _ = emitted(flow, fn_.node)
+                for e_ in ems:
+                    lines.extend(t for _, t in e_)
+        except Inconclusive as e:
+            res.unsure(f"D5: {relsfx}:{cname}: {e}")
             return
-        tpls = [_fstring_shape(n) for n in ast.walk(c.node) if isinstance(n, (ast.JoinedStr, ast.Constant)) and isinstance(getattr(n, "value", ""), (str, type(None))) or isinstance(n, ast.JoinedStr)]
         res.inst(part=part, where=cname, what=what)
-        if not any(piece in t for t in tpls):
-            fd = Finding("D5", mod.rel, c.node.lineno, cname, piece, f"{what}: template piece `{piece}` not emitted", witness="encode allocates / declares a size that is not Message.nbytes()", tag=f"{cname}:{piece[:40]}")
+        if not any(sq(piece) in sq(t) for t in lines):
+            fd = Finding("D5", m.mod(relsfx).rel, c.node.lineno, cname, piece, f"{what}: template piece `{piece}` not emitted (emitted: {lines[:3]})", witness="encode allocates / declares a size that is not Message.nbytes()", tag=f"{cname}:{piece[:40]}")
             fd.part = part
             res.bad(fd)
 
@@ -152,16 +177,9 @@ def d5(repo: Repo) -> RuleResult:
     template_has("impls/go/renderer.py", "BlockMessageSizeConst", "const {self.message_size_constant_name} uint32 = {self.message_nbytes}", "go", "Go size constant")
     template_has("impls/go/renderer.py", "BlockMessageMethodSize", "return {self.message_nbytes}", "go", "Go Size()")
     template_has("impls/go/renderer.py", "BlockMessageMethodEncode", "ctx := bp.NewEncodeContext(int(m.Size()))", "go", "Go encode allocation")
-    template_has("impls/go/renderer.py", "BlockMessageMethodEncodeOpMode", "s := make([]byte, {size})", "go", "Go -O encode allocation")
+    template_has("impls/go/renderer.py", "BlockMessageMethodEncodeOpMode", "s := make([]byte, {self.formatter.format_int_value(self.d.nbytes())})", "go", "Go -O encode allocation")
     template_has("impls/py/renderer.py", "BlockMessageSize", "{self.message_size_constant_name}: ClassVar[int] = {self.message_nbytes}", "py", "Python BYTES_LENGTH")
     template_has("impls/py/renderer.py", "BlockMessageMethodEncode", "s = bytearray(self.BYTES_LENGTH)", "py", "Python encode allocation")
-    gm = m.mod("impls/go/renderer.py").classes.get("BlockMessageMethodEncodeOpMode")
-    if gm is not None:
-        t = src_of(gm.node)
-        if "size = self.formatter.format_int_value(self.d.nbytes())" not in t:
-            fd = Finding("D5", "compiler/bitproto/renderer/impls/go/renderer.py", gm.node.lineno, "BlockMessageMethodEncodeOpMode", "", "Go -O encoder buffer size is not Message.nbytes()", tag="go:opmode:size")
-            fd.part = "go"
-            res.bad(fd)
     # Go runtime NewEncodeContext allocates nbytes
     try:
         from .gomodel import get_go, go_src
